@@ -54,6 +54,43 @@ func c19RaceBinary() (string, error) {
 	return out, nil
 }
 
+// the operations of one C19.dns_seq case, on one goroutine
+func c19RunSeq(cache *fclient.DNSCache, answer *string, ops [][]byte, hits *int, lines *[]string) {
+	for _, opb := range ops {
+		f := strings.Split(string(opb), "|")
+		res := "badop"
+		switch {
+		case f[0] == "L" && len(f) == 3:
+			*answer = f[2]
+			addrs, _, cached, ok := cache.VerifLookup(f[1])
+			switch {
+			case !ok:
+				res = "fail"
+			case cached:
+				res = "hit:" + addrs[0].IP.String()
+			default:
+				res = "miss:" + addrs[0].IP.String()
+			}
+		case f[0] == "A" && len(f) == 2:
+			s, _ := strconv.Atoi(f[1])
+			cache.VerifAge(time.Duration(s) * time.Second)
+			res = "aged"
+		case f[0] == "X" && len(f) == 3:
+			*answer = f[2]
+			ctx, cancel := context.WithTimeout(context.Background(), 2*time.Second)
+			c, err := cache.DialContext(ctx, "tcp", f[1]+":"+c19Port())
+			cancel()
+			if err == nil {
+				c.Close()
+				res = "x-connected"
+			} else {
+				res = "x"
+			}
+		}
+		*lines = append(*lines, res+";"+strconv.Itoa(*hits)+";"+strings.Join(cache.VerifContent(), ","))
+	}
+}
+
 func init() {
 	// [size; duration seconds; op...]
 	RegisterImpl("C19.dns_seq", func(args [][]byte) ([][]byte, []byte) {
@@ -70,38 +107,15 @@ func init() {
 				return []net.IPAddr{{IP: net.ParseIP(answer)}}, nil
 			})
 		var lines []string
-		for _, opb := range args[2:] {
-			f := strings.Split(string(opb), "|")
-			res := "badop"
-			switch {
-			case f[0] == "L" && len(f) == 3:
-				answer = f[2]
-				addrs, _, cached, ok := cache.VerifLookup(f[1])
-				switch {
-				case !ok:
-					res = "fail"
-				case cached:
-					res = "hit:" + addrs[0].IP.String()
-				default:
-					res = "miss:" + addrs[0].IP.String()
-				}
-			case f[0] == "A" && len(f) == 2:
-				s, _ := strconv.Atoi(f[1])
-				cache.VerifAge(time.Duration(s) * time.Second)
-				res = "aged"
-			case f[0] == "X" && len(f) == 3:
-				answer = f[2]
-				ctx, cancel := context.WithTimeout(context.Background(), 2*time.Second)
-				c, err := cache.DialContext(ctx, "tcp", f[1]+":"+c19Port())
-				cancel()
-				if err == nil {
-					c.Close()
-					res = "x-connected"
-				} else {
-					res = "x"
-				}
-			}
-			lines = append(lines, res+";"+strconv.Itoa(hits)+";"+strings.Join(cache.VerifContent(), ","))
+		finished := make(chan struct{})
+		go func() {
+			defer close(finished)
+			c19RunSeq(cache, &answer, args[2:], &hits, &lines)
+		}()
+		select {
+		case <-finished:
+		case <-time.After(2 * time.Second):
+			return args, B("timeout") // a call did not return: the goroutine is abandoned
 		}
 		return args, B(strings.Join(lines, "\n"))
 	})
@@ -156,6 +170,10 @@ func init() {
 			return args, B(c19lib.DNSStress(seed, 3, 8, 400, 2*time.Millisecond))
 		case "dns-size1":
 			return args, B(c19lib.DNSStress(seed, 1, 8, 300, time.Millisecond))
+		case "dns-size0":
+			return args, B(c19lib.DNSStress(seed, 0, 8, 200, time.Millisecond))
+		case "dns-negative-size":
+			return args, B(c19lib.DNSStress(seed, -3, 8, 200, time.Hour))
 		case "dns-long-lived":
 			return args, B(c19lib.DNSStress(seed, 4, 8, 300, time.Hour))
 		case "fetch":
@@ -278,16 +296,24 @@ func genC19(c *Ctx) {
 	seq(3, 10, []string{"L|a.example|127.1.0.1", "A|1", "L|b.example|127.1.0.2", "A|1", "L|c.example|127.1.0.3", "A|1", "L|a.example|127.1.0.9", "L|d.example|127.1.0.4", "L|a.example|127.1.0.5", "L|b.example|127.1.0.6"}, "a hit does not refresh the expiry")
 	seq(2, 10, []string{"L|a.example|", "L|a.example|", "L|a.example|127.1.0.1", "L|a.example|"}, "failures are not cached")
 	seq(2, 10, []string{"L|a.example|127.1.0.1", "A|4", "L|b.example|127.1.0.2", "A|7", "L|c.example|127.1.0.3", "L|b.example|127.1.0.4", "L|a.example|127.1.0.5"}, "expired entry is the eviction victim")
+	// a cache without room (0 is the zero value of an unset configuration field) holds nothing
+	for _, sz := range []int{0, -1, -7} {
+		seq(sz, 10, []string{"L|a.example|127.1.0.1", "L|a.example|127.1.0.2", "L|b.example|127.1.0.3", "A|1", "L|a.example|", "L|a.example|127.1.0.4"}, "size zero or negative: nothing is cached, nothing spins")
+	}
 	if c19Port() != "" {
+		seq(0, 10, []string{"L|a.example|127.0.0.2", "X|a.example|127.0.0.3", "X|a.example|", "L|a.example|127.0.0.4"}, "size zero with the DialContext path")
 		seq(2, 10, []string{"L|a.example|127.0.0.2", "X|a.example|127.0.0.3", "L|a.example|127.0.0.4", "X|b.example|127.0.0.5", "X|b.example|", "L|b.example|127.0.0.6"}, "DialContext retry path deletes and re-resolves")
 	}
 	for k := 0; k < c.Scale(400, 6000); k++ {
 		size := 1 + r.Intn(4)
+		if r.Intn(12) == 0 {
+			size = -r.Intn(2)
+		}
 		dur := []int{1, 5, 10, 60}[r.Intn(4)]
 		n := 5 + r.Intn(25)
 		var ops []string
 		for i := 0; i < n; i++ {
-			h := hosts[r.Intn(size+1)]
+			h := hosts[r.Intn(c19lib.LimitOf(size)+1)]
 			switch x := r.Intn(20); {
 			case x < 12:
 				ops = append(ops, "L|"+h+"|"+ip())
@@ -384,7 +410,7 @@ func genC19(c *Ctx) {
 		}
 		tseq(ops...)
 	}
-	for _, sc := range []string{"dns", "dns-size1", "dns-long-lived", "fetch", "transport", "transport-fresh", "event"} {
+	for _, sc := range []string{"dns", "dns-size1", "dns-size0", "dns-negative-size", "dns-long-lived", "fetch", "transport", "transport-fresh", "event"} {
 		for k := 0; k < c.Scale(1, 6); k++ {
 			c.Run("C19.stress", Args(sc, strconv.Itoa(int(c.Seed)+k)), "C19.const_ok", "C19.prop.invariants_held", "stress "+sc)
 			c.Count("stress." + sc)
